@@ -92,6 +92,29 @@ def run(tier):
         u = corpus.rand_input(rng, 14)
         ops = [st.gen_fwd_op(rng, t, inp=u, mode=0, cap=32 * len(u) + 256, argmask=28, cursor=c) for c in range(len(u))]
         cases.append(common.Case("c07-cur%d" % ti, ["HOOK trace 1"], ops, {"table": t}))
+    # emphasis in runs (what callers pass): closing indicators are attached to the character before them although they are
+    # written after cells of the next one, so the internal map is not monotone there (seeded change C07-D)
+    vocab = corpus.table_vocab(exe, tables)
+    for ti, t in enumerate(tables):
+        vv = vocab.get(t)
+        ops = []
+        for _ in range(14 if tier == "quick" else 30):
+            u = vv.text(rng, 12) if (vv and vv.by_op and rng.random() < 0.6) else corpus.rand_input(rng, 12)
+            u = [c for c in u if c][:rng.choice([3, 4, 6, 12])]
+            if not u:
+                continue
+            tf = [0] * len(u)
+            for _r in range(rng.randint(1, 3)):
+                a = rng.randint(0, len(u) - 1)
+                b = rng.randint(a + 1, min(len(u), a + rng.choice([1, 1, 2, 4])))
+                cls = rng.choice([1, 2, 4, 1 | 2, 2 | 4, 0x100, 0x200])
+                for i in range(a, b):
+                    tf[i] |= cls
+            op = st.gen_fwd_op(rng, t, inp=u, mode=rng.choice([0, 0, 4]), cap=32 * len(u) + 256, argmask=29, cursor=rng.randint(0, len(u) - 1))
+            tt = op.split(" ")
+            tt[7] = common.wide(tf)
+            ops.append(" ".join(tt))
+        cases.append(common.Case("c07-emph%d" % ti, ["HOOK trace 1"], ops, {"table": t}))
     cases += st.wide_cases(rng, 200 if tier == "quick" else 2500, per_table=6, back=True, exact=False, tag="c07w", budget=3000000)
     # whole calls on composite tables: the model alone computes both position arrays and the cursor (MCALL)
     cases += st.composite_cases(rng, 120 if tier == "quick" else 3000, per_table=8, tag="c07wc", argmasks=[12, 28, 28, 4, 8, 20, 24])
